@@ -6,6 +6,7 @@ import (
 	"encoding/json"
 	"fmt"
 	"strings"
+	_ "verif/h/duoc"
 
 	"github.com/biogo/biogo/feat"
 	"github.com/biogo/biogo/io/featio/bed"
